@@ -9,6 +9,7 @@ open EaselModel EaselModel.Proto EaselModel.Containers EaselModel.Random
 
 structure S where
   kh : Keyhash.KH := Keyhash.create 128 128 2048
+  kh2 : Option Keyhash.KH := none
   heap : Heap.Heap := Heap.create false
   tree : RedBlack.Tree Int := .nil
   stack : Stack.Stack Int := Stack.create
@@ -115,7 +116,11 @@ def step (s : S) (line : String) : S × String :=
     | none => fault s
   | "num" :: _ => (s, s!"ok {s.kh.nkeys}")
   | "kh_reuse" :: _ => ({ s with kh := Keyhash.reuse s.kh }, "ok")
-  | "kh_clone" :: _ => ({ s with kh := Keyhash.clone s.kh }, "ok")
+  | "kh_clone" :: _ => ({ s with kh2 := some (Keyhash.clone s.kh) }, "ok")
+  | "kh_swap" :: _ =>
+    match s.kh2 with
+    | some k2 => ({ s with kh := k2, kh2 := some s.kh }, "ok")
+    | none => (s, "bad-op")
   | "kh_sizes" :: _ => (s, s!"ok hashsize={s.kh.hashsize} kalloc={s.kh.kalloc} salloc={s.kh.salloc} sn={s.kh.smem.size}")
   -- ---------------- heap
   | "heap_new" :: _ => ({ s with heap := Heap.create ((argNat? ws "max").getD 0 == 1) }, "ok")
